@@ -467,7 +467,24 @@ impl OcflStore for FsOcflStore {
 
         fs::rename(version_path, &destination)?;
 
-        if let Err(e) = self.copy_inventory_files(inventory, &destination, &object_root) {
+        let is_upgrade = inventory.type_declaration != existing_inventory.type_declaration;
+
+        let install = || -> Result<()> {
+            self.copy_inventory_files(inventory, &destination, &object_root)?;
+
+            if is_upgrade {
+                // This is a version upgrade
+                let old_namastes = find_files(&object_root, OBJECT_NAMASTE_FILE_PREFIX)?;
+                write_object_namaste(&object_root, inventory.spec_version().unwrap())?;
+                for old in old_namastes {
+                    util::remove_file_ignore_not_found(object_root.join(old))?;
+                }
+            }
+
+            Ok(())
+        };
+
+        if let Err(e) = install() {
             // The root inventory may have been partially overwritten. The previous version
             // directory holds an identical copy of the previous root inventory; restore it.
             let previous = object_root.join(existing_inventory.head.to_string());
@@ -476,6 +493,18 @@ impl OcflStore for FsOcflStore {
             {
                 error!("Failed to restore the root inventory of object {} from {}: {}. Manual intervention may be required.",
                        inventory.id, previous.to_string_lossy(), e);
+            }
+
+            if is_upgrade {
+                // The previous version declaration is only removed as the very last step
+                if let Some(version) = inventory.spec_version() {
+                    if let Err(e) = util::remove_file_ignore_not_found(
+                        paths::object_namaste_path(&object_root, version),
+                    ) {
+                        error!("Failed to remove the version declaration of object {}: {}. Manual intervention may be required.",
+                               inventory.id, e);
+                    }
+                }
             }
 
             if let Err(e) = fs::rename(&destination, version_path) {
@@ -490,15 +519,6 @@ impl OcflStore for FsOcflStore {
         }
 
         inventory.storage_path = object_root.to_string_lossy().into();
-
-        if inventory.type_declaration != existing_inventory.type_declaration {
-            // This is a version upgrade
-            let old_namastes = find_files(&object_root, OBJECT_NAMASTE_FILE_PREFIX)?;
-            write_object_namaste(&object_root, inventory.spec_version().unwrap())?;
-            for old in old_namastes {
-                util::remove_file_ignore_not_found(&object_root.join(old))?;
-            }
-        }
 
         Ok(())
     }
